@@ -1,5 +1,6 @@
 """Panic-site inventory and discharge (abstract interpretation with a linear-inequality domain,
 one abstract state per path = trace partitioning)."""
+import os
 from .core import AnalysisError, subterms, term_s
 from .lin import Lin, State
 from .paths import PathEnum
@@ -685,6 +686,12 @@ class PanicAnalysis:
                 elif rk == "RangeFrom":
                     a = tr.lin(r[3][0])
                     ok = st.entails_le(a - L)
+            if not ok and os.environ.get("MHSA_DEBUG_LEN"):     # development aid: the two terms whose lengths could not be related
+                print("DEBUG base", term_s(base)[:1500])
+                print("DEBUG idx ", term_s(idx)[:1500])
+                if os.environ.get("MHSA_DEBUG_LEN") == "repr":
+                    print("DEBUG base repr", repr(base)[:3000])
+                    print("DEBUG idx repr ", repr(idx)[:3000])
             self.record(fn, "call", "drain|%s" % desc[:110], desc, loc, e[1], ok, "" if ok else "range end <= len not entailed")
             return
         if kind == "copy-within":
